@@ -658,6 +658,19 @@ def mon_C15(walk, d):
             out.append(("policy-failed-retained-kind", f"operation {idx} ({op['kind']} qos {op['qos']}) failed by offline policy {policy}, which retains it", step))
         if outcome == "err.ConnectionClosed":
             out.append(("user-op-connection-closed", f"user operation {idx} failed with ConnectionClosed", step))
+    # at submission: while the engine is not in its Connected state an operation the policy rejects fails at once
+    for idx, op in d["ops"].items():
+        c = conn_at(d, op["step"])
+        connected = c is not None and c.connack_step is not None and c.connack_step < op["step"] and c.connack["rc"] == 0 \
+            and (c.error_step is None or c.error_step > op["step"]) and (c.close_step is None or c.close_step > op["step"]) \
+            and not any(p["kind"] == "disconnect" and p["last_step"] < op["step"] for p in c.packets) \
+            and not (c.taint_step is not None and c.taint_step < op["step"])
+        tainted = c is not None and c.taint_step is not None and c.taint_step < op["step"]
+        if not connected and not tainted and not passes(op):
+            f, _ = resp_fields(walk.out[op["step"]])
+            if f"{idx}:err.OfflineQueuePolicyFailed" not in (f.get("comps") or "").split(","):
+                out.append(("accepted-while-offline", f"operation {idx} ({op['kind']} qos {op['qos']}) submitted while not connected under policy {policy} "
+                                                      f"was not failed at submission", op["step"]))
     # an operation rejected by policy is never emitted later
     failed_at = {idx: lst[0][0] for idx, lst in d["completions"].items() if lst[0][2] == "err.OfflineQueuePolicyFailed"}
     for c in d["conns"]:
@@ -821,6 +834,9 @@ def mon_C14(walk, d):
                     out.append(("next-ping", f"next ping at {f.get('nping')}, expected {t + ska * 1000}", i - 1))
                 if ska == 0:
                     out.append(("ping-with-keepalive-zero", "a PINGREQ was scheduled although the negotiated keep alive is 0", i - 1))
+            if ska > 0 and f.get("nping") not in (None, "none") and int(f["nping"]) > t + ska * 1000:
+                out.append(("next-ping-too-late", f"at {t} ms the next PINGREQ is scheduled for {f['nping']} ms, more than the negotiated keep alive "
+                                                  f"({ska} s) away: the connection can stay silent longer than the keep alive", i))
             if ska == 0 and f.get("nping") != "none":
                 out.append(("ping-with-keepalive-zero", "next-ping time set although the negotiated keep alive is 0", i))
         if k == "svc":
